@@ -620,12 +620,23 @@ def run(c):
         "sizes, ensemble layout, forecast kind, window offsets) tuples"
     )
     c.assumptions = [
-        "ElementTree/defusedxml, repr(float)/float(str) (exact), np.tofile/fromfile float32, '%f' printing, "
-        "genfromtxt, netCDF4/cftime are trusted libraries exercised by this run, not modelled byte-wise",
+        "ElementTree/defusedxml, repr(float)/float(str) (exact), np.tofile/fromfile float32, '%f' printing "
+        "(correctly rounded, ties to even), genfromtxt, netCDF4/cftime are trusted libraries exercised by this run, "
+        "not modelled byte-wise (record-level model)",
         "a finite value equal to the header's missVal (-999 in new files) reads back as missing: PI convention, "
-        "excluded from the round-trip claim (hypothesis of C11_pi_roundtrip)",
-        "stamps are whole seconds; variable ids contain no ':'",
+        "hypothesis of C11_pi_roundtrip (witness C11_miss_collision_witness)",
+        "PI binary files carry no time stamps: nonequidistant data cannot round-trip through the binary format "
+        "(excluded by WF true; the reader then returns an empty stamp list, which the model reproduces)",
+        "a first PI header without forecastDate fixes the forecast to its own start and a later, different "
+        "forecastDate is rejected (order dependent; modelled, outside the property)",
+        "stamps are whole seconds; variable / location / parameter ids contain no ':'",
+        "ParameterConfig.set of a bool into a dblValue stores 'True', which get cannot parse: not modelled (not generated)",
     ]
+    c.notes.append(
+        "All theorems are about the record-level model; byte encoders are tied only by the correspondence.  "
+        "float32 rounding is an abstract idempotent function in C11_binary (the harness passes numpy's conversion as a "
+        "table).  Nonequidistant resize is proved for one call (C11_resize_neq_keeps_values), equidistant resize for "
+        "every sequence of calls.  Corpus: F7, F26, F39, F40, F41 inputs are ordinary cases.")
     c.prove()
     tmp = tempfile.mkdtemp(prefix="c11_")
     try:
